@@ -50,6 +50,19 @@ impl<T> List<T> {
     }
 }
 
+impl<T> Drop for List<T> {
+    /// Drops the nodes owned solely by this list iteratively so that a long list does not recurse once per node.
+    fn drop(&mut self) {
+        let mut link = self.head.take();
+        while let Some(node) = link {
+            link = match Arc::into_inner(node) {
+                Some(mut node) => node.next.take(),
+                None => None,
+            };
+        }
+    }
+}
+
 impl<T> Clone for List<T> {
     fn clone(&self) -> Self {
         Self {
